@@ -1,6 +1,7 @@
 package sim
 
 import (
+	"encoding/hex"
 	"fmt"
 	"sort"
 
@@ -109,7 +110,35 @@ func (propC16) Gen(r *Rand) *Plan {
 			}
 		}
 	}
-	return &Plan{Scenario: []string{"root", "state"}[r.Intn(2)], Tasks: []TaskPlan{{Ops: ops}}}
+	// some inputs get a character replaced by a "neighbour in another plane / page" of itself
+	for i := range ops {
+		if ops[i].Op != "add" && r.Bool(0.06) {
+			rs := []rune(ops[i].S)
+			if len(rs) > 0 {
+				k := r.Intn(len(rs))
+				rs[k] = rs[k] ^ rune(r.PickInt([]int{0x10000, 0x100, 0x10000, 0x20000}))
+				ops[i].S = string(rs)
+			}
+		}
+	}
+	cfg := map[string]string{"obs": fmt.Sprint(r.ObsStride()), "tokarg": r.Pick([]string{"nil", "nil", "other"})}
+	if r.Bool(0.04) {
+		// symbols and inputs given as bytes that are not all well-formed UTF-8: an ill-formed byte is the
+		// character U+FFFD on both sides (registration and scanner)
+		cfg["hex"] = "1"
+		bad := []string{"\xff", "\xc3", "\x80"}
+		for i := range ops {
+			if r.Bool(0.5) {
+				rs := []rune(ops[i].S)
+				pos := r.Intn(len(rs) + 1)
+				ops[i].S = string(rs[:pos]) + bad[r.Intn(len(bad))] + string(rs[pos:])
+			}
+		}
+		for i := range ops {
+			ops[i].S = hex.EncodeToString([]byte(ops[i].S))
+		}
+	}
+	return &Plan{Scenario: []string{"root", "state"}[r.Intn(2)], Config: cfg, Tasks: []TaskPlan{{Ops: ops}}}
 }
 
 func (propC16) Exec(p *Plan, x *Ctx) *Outcome {
@@ -117,7 +146,19 @@ func (propC16) Exec(p *Plan, x *Ctx) *Outcome {
 	if len(p.Tasks) == 0 {
 		return out
 	}
-	ops := p.Tasks[0].Ops
+	ops := append([]Op{}, p.Tasks[0].Ops...)
+	if p.Cfg("hex", "") == "1" {
+		for i := range ops {
+			if raw, err := hex.DecodeString(ops[i].S); err == nil {
+				// what counts is the character sequence Go's conversion gives (U+FFFD for an ill-formed byte)
+				ops[i].S = string([]rune(string(raw)))
+				if raw2 := string(raw); raw2 != ops[i].S {
+					ops[i].S2 = raw2 // the bytes as the caller hands them in
+				}
+			}
+		}
+	}
+	stride := p.Stride()
 	run := NewRun(0)
 	adds, reads := 0, 0
 	body := func() {
@@ -127,6 +168,15 @@ func (propC16) Exec(p *Plan, x *Ctx) *Outcome {
 			state = generic.NewGenericSymbolState()
 		} else {
 			root = generic.NewSymbolRootNode()
+		}
+		// the second argument of a symbol state's NextToken: nil, or a tokenizer that is busy with a
+		// stream of its own (the state has to read from the scanner it is given)
+		var tokArg tokenizers.ITokenizer
+		if p.Cfg("tokarg", "nil") == "other" {
+			other := generic.NewGenericTokenizer()
+			other.SetReader(sio.NewStringScanner("a <= b >= c"))
+			other.NextToken()
+			tokArg = other
 		}
 		model := map[string]int{}
 		lastRead := ""
@@ -143,6 +193,19 @@ func (propC16) Exec(p *Plan, x *Ctx) *Outcome {
 			decoy.NextToken(sio.NewStringScanner(d + "x"))
 			decoy.NextToken(sio.NewStringScanner(sym))
 		}
+		// rawOf: the bytes a read operation hands to the scanner (ill-formed ones when the plan has them)
+		rawInputs := map[string]string{}
+		for _, o := range ops {
+			if o.S2 != "" {
+				rawInputs[o.S] = o.S2
+			}
+		}
+		rawOf := func(chars string) string {
+			if raw, ok := rawInputs[chars]; ok {
+				return raw
+			}
+			return chars
+		}
 		read := func(i int, input string, why string) bool {
 			in := []rune(input)
 			if len(in) == 0 {
@@ -158,10 +221,10 @@ func (propC16) Exec(p *Plan, x *Ctx) *Outcome {
 					break
 				}
 			}
-			sc := sio.NewStringScanner(input)
+			sc := sio.NewStringScanner(rawOf(input))
 			var tok *tokenizers.Token
 			if state != nil {
-				tok = state.NextToken(sc, nil)
+				tok = state.NextToken(sc, tokArg)
 			} else {
 				tok = root.NextToken(sc)
 			}
@@ -198,18 +261,24 @@ func (propC16) Exec(p *Plan, x *Ctx) *Outcome {
 					continue
 				}
 				decoyStep(i, o.S)
+				symBytes := o.S
+				if o.S2 != "" {
+					symBytes = o.S2 // ill-formed bytes as given; the model key is the character sequence
+				}
 				if state != nil {
-					state.Add(o.S, c16Type(o.S))
+					state.Add(symBytes, c16Type(o.S))
 				} else {
-					root.Add(o.S, c16Type(o.S))
+					root.Add(symBytes, c16Type(o.S))
 				}
 				model[o.S] = c16Type(o.S)
 				adds++
 				out.Event("add %q", o.S)
-				// registering further symbols never alters existing ones
-				for _, s := range c16Syms(model) {
-					if !read(i, s, "readback") {
-						return
+				// registering further symbols never alters existing ones (read back unless this run observes sparsely)
+				if Observe(stride, i, len(ops)) {
+					for _, s := range c16Syms(model) {
+						if !read(i, s, "readback") {
+							return
+						}
 					}
 				}
 				if len([]rune(o.S)) > 1 {
@@ -240,7 +309,7 @@ func (propC16) Exec(p *Plan, x *Ctx) *Outcome {
 					}
 					var tok *tokenizers.Token
 					if state != nil {
-						tok = state.NextToken(sc, nil)
+						tok = state.NextToken(sc, tokArg)
 					} else {
 						tok = root.NextToken(sc)
 					}
